@@ -355,22 +355,35 @@ impl Linker {
         #[cfg(wild_verif)]
         crate::verif::point("sections-resolved")?;
 
-        let layout = layout::compute::<P, A>(
-            symbol_db,
-            per_symbol_flags,
-            resolved,
-            output_sections,
-            &mut output,
-        )?;
+        // From here on the output file may exist. If anything fails, don't leave a partial output
+        // behind.
+        let layout_and_write = (|| {
+            let layout = layout::compute::<P, A>(
+                symbol_db,
+                per_symbol_flags,
+                resolved,
+                output_sections,
+                &mut output,
+            )?;
 
-        #[cfg(wild_verif)]
-        crate::verif::point("layout-done")?;
+            #[cfg(wild_verif)]
+            crate::verif::point("layout-done")?;
 
-        P::write_output_file::<A>(&output, &layout)?;
+            P::write_output_file::<A>(&output, &layout)?;
 
-        #[cfg(wild_verif)]
-        crate::verif::point("output-written")?;
-        diff::maybe_diff()?;
+            #[cfg(wild_verif)]
+            crate::verif::point("output-written")?;
+            diff::maybe_diff()?;
+            Ok(layout)
+        })();
+
+        let layout = match layout_and_write {
+            Ok(layout) => layout,
+            Err(error) => {
+                output.discard();
+                return Err(error);
+            }
+        };
 
         // We've finished linking. We consider everything from this point onwards as shutdown.
         let (g1, g2) = timing_guard!("Shutdown");
